@@ -312,3 +312,15 @@ pub async fn run(cli: &Cli, report: &mut Report) {
     }
     report.set("worst_scheduler_lateness_ms", json!(worst.as_millis() as u64));
 }
+
+pub async fn run_prop(cli: &Cli) -> i32 {
+    let mut report = Report::new(
+        cli,
+        "exploration",
+        "listeners started from Config values through passage::start on loopback: per listener {max_packet_length, auth_cookie_expiry, timeout, secret}: Status Request frames padded to max / max+1 / 10×max; transfer-intent connections presenting cookies aged 0 / 30 / 3600 s under the configured and under another secret; silent, byte-dripping and stalled-after-step-k clients whose close time is measured against timeout + 5 s; plus a hanging backend behind a directly built Listener; distinct = (listener configuration, case)",
+    );
+    report.assume("cookie ages within 3 s of the configured expiry are not generated (wall clock)");
+    report.assume("closing earlier than the timeout is not judged here; only a connection still open at timeout + 5 s is a violation");
+    run(cli, &mut report).await;
+    report.finish()
+}
